@@ -371,7 +371,7 @@ def by_qname(funcs):
 
 # ------------------------------------------------------------ dataflow
 def forward(fn, init, elem_fn, edge_fn=None, include_unreachable=False,
-            max_states=200000):
+            max_states=200000, start=None):
     """Forward may-analysis over automaton states.
 
     init: iterable of initial states (hashable).
@@ -384,9 +384,10 @@ def forward(fn, init, elem_fn, edge_fn=None, include_unreachable=False,
     IN = defaultdict(set)
     OUT = defaultdict(set)
     work = deque()
+    start = fn.entry if start is None else start
     for s in init:
-        IN[fn.entry].add(s)
-        work.append((fn.entry, s))
+        IN[start].add(s)
+        work.append((start, s))
     n = 0
     while work:
         bid, st = work.popleft()
